@@ -18,7 +18,7 @@ from ..catalog import KINDS, kinds_with
 from ..seams import quiet
 
 PROP = 'C10'
-TIERS = {'quick': 4500, 'thorough': 40000}
+TIERS = {'quick': 4500, 'thorough': 120000}
 RULE = ('each run: a seeded hierarchy (depth 1-3) of modelled sequential blocks with 1-4 clock drivers placed on '
         'groups at seeded levels, enables from primary inputs, from registers of other domains and from inside the '
         'gated domain; 20-120 cycles; non-trivial = some domain saw both an enabled and a disabled edge while it '
